@@ -71,12 +71,15 @@ pub fn deserialize_eps_zero<'a, T: ZeroCopy>(
     backend: &mut SliceWithPos<'a>,
 ) -> deser::Result<&'a T> {
     let bytes = core::mem::size_of::<T>();
+    // The padding must be skipped also for zero-sized types, as
+    // serialize_zero writes it (the alignment unit can be greater than one
+    // even for a zero-sized type, e.g., for a structure containing [u64; 0]).
+    backend.align::<T>()?;
     if bytes == 0 {
         // SAFETY: T is zero-sized, so a dangling (but non-null and
         // aligned) pointer is a valid reference.
         return Ok(unsafe { core::ptr::NonNull::<T>::dangling().as_ref() });
     }
-    backend.align::<T>()?;
     let (pre, data, after) = unsafe { backend.data[..bytes].align_to::<T>() };
     debug_assert!(pre.is_empty());
     debug_assert!(after.is_empty());
